@@ -27,6 +27,7 @@ SPEC = {('PATH', 'Build', 'bin'), ('LD_LIBRARY_PATH', 'Build', 'lib'), ('LIBRARY
 
 def run(ctx, rep):
     prog, sl = ctx.prog, ctx.slicer
+    L.resolve_roles(prog, sl)
     rep.rule('R1', '7-row layer path table = spec')
     rep.rule('R2', 'inserts guarded by Path::is_dir of the row\'s directory')
     rep.rule('R3', 'Prepend(name, dir) + Delimiter(name, separator) into the delta of the row\'s scope')
@@ -37,7 +38,7 @@ def run(ctx, rep):
     rep.analysed(g)
     where = '%s:%d' % (g.file, g.line)
     root = L.param_pred(g, 0)
-    ins = [c for c in g.calls if c.name == 'libcnb::layer_env::LayerEnvDelta::insert']
+    ins = [c for c in g.calls if c.name == L.INSERT]
     rep.floor('R3', 'insert_sites', len(ins))
     rows = None
     coll_seen = None
